@@ -184,7 +184,7 @@ def e2e_pel(draw, i):
         secs.append(M.default_src(ascii=M.pad_text(ascii_[:32], 32, b' '),
                                   words=[draw(S.uint(32)) for _ in range(8)]))
     for _ in range(draw(st.integers(0, 3))):
-        kind = draw(st.sampled_from(['text', 'json', 'mt', 'eh', 'raw', 'bad-json']))
+        kind = draw(st.sampled_from(['text', 'json', 'mt', 'eh', 'raw', 'bad-json', 'long-line']))
         if kind == 'text':
             lines = draw(st.lists(nasty_line, min_size=1, max_size=4))
             lines = [('x' + l + 'x') for l in lines]
@@ -195,6 +195,16 @@ def e2e_pel(draw, i):
             if len(raw) > 60000:
                 raw = b'{}'
             secs.append({'k': 'UD', 'ver': 1, 'sub': 1, 'comp': 0x2000, 'data': raw + b'\x00' * draw(st.integers(0, 3))})
+        elif kind == 'long-line':
+            # one decoded line far longer than any I/O buffer (8 KiB, 64 KiB)
+            n = draw(st.sampled_from([8150, 8192, 8200, 9000, 20000, 65000]))
+            ch = draw(st.sampled_from(['a', 'x', ' ', '"', '\\']))
+            if draw(st.booleans()):
+                secs.append({'k': 'UD', 'ver': 1, 'sub': 3, 'comp': 0x2000,
+                             'data': ('L' + ch * min(n, 65000) + 'R').encode()})
+            else:
+                secs.append({'k': 'UD', 'ver': 1, 'sub': 1, 'comp': 0x2000,
+                             'data': json.dumps({'long': 'L' + 'z' * min(n, 60000) + 'R'}).encode()})
         elif kind == 'bad-json':
             # JSON-format user data that does not parse (trailing comma, cut off, empty, not UTF-8): it is shown
             # as a hex dump, and whatever is printed must still be the decoded document
